@@ -8,8 +8,9 @@ Public API (used by other models, e.g. SwissKnife / Converter nodes):
 * `Formula.parse      : String → Res Err (Expr F)`        (`formula::parse`)
 * `Formula.eval       : Profile → Env F → Expr F → Res Err (EvalResult F)` (`Expr::eval`
   with an environment of literal bindings)
-* `Formula.evalX      : Nat → Profile → EnvX F → Expr F → Res Err (EvalResult F)`
-  (`Expr::eval` with an environment of expressions, fuel = number of nested identifier expansions)
+* `Formula.evalX      : Profile → EnvX F → Nat → Expr F → Res Err (EvalResult F)`
+  (`Expr::eval` with an environment of expressions, fuel = number of nested identifier
+  expansions; a self-referring expression is the error `InvalidNode`)
 * `Formula.Env F      := String → Option (EvalResult F)`
 
 Machine integers are `BitVec 64` (i64 with the signed reading).  Floating point numbers
@@ -612,41 +613,52 @@ def eval (p : Profile) (env : Env F) : Expr F → R (EvalResult F)
     | none => .err .invalidNode
     | some v => .ok v
 
-/-- `Expr::eval` for an environment of expressions: an identifier evaluates the bound
-expression in the same environment.  `fuel` bounds the nesting of identifier expansions
-(the Rust code recurses without bound on a cyclic environment). -/
-def evalX (p : Profile) (env : EnvX F) : Nat → Expr F → R (EvalResult F)
-  | fuel, .binOp k l r =>
+/-- `Expr::eval_in` for an environment of expressions: an identifier evaluates the bound
+expression in the same environment (dynamic scope).  `expanding` are the identifiers whose bound
+expressions are being evaluated (the `Expanding` chain): meeting one of them again is the error
+`InvalidNode` (an expression that refers to itself).  `fuel` bounds the nesting of identifier
+expansions; with an environment of `n` bindings a chain without repetition has at most `n`
+links, so `fuel = n + 1` is never exhausted (`Err.fuel` is a model artefact). -/
+def evalXV (p : Profile) (env : EnvX F) : List String → Nat → Expr F → R (EvalResult F)
+  | vis, fuel, .binOp k l r =>
     match k with
     | .and => do
-      let a ← evalX p env fuel l
+      let a ← evalXV p env vis fuel l
       if a.asBool then do
-        let b ← evalX p env fuel r
+        let b ← evalXV p env vis fuel r
         .ok (ofBool b.asBool)
       else .ok (ofBool false)
     | .or => do
-      let a ← evalX p env fuel l
+      let a ← evalXV p env vis fuel l
       if a.asBool then .ok (ofBool true)
       else do
-        let b ← evalX p env fuel r
+        let b ← evalXV p env vis fuel r
         .ok (ofBool b.asBool)
     | k => do
-      let a ← evalX p env fuel l
-      let b ← evalX p env fuel r
+      let a ← evalXV p env vis fuel l
+      let b ← evalXV p env vis fuel r
       evalBinStrict k a b
-  | fuel, .unOp k e => do
-    let v ← evalX p env fuel e
+  | vis, fuel, .unOp k e => do
+    let v ← evalXV p env vis fuel e
     .ok (evalUn k v)
-  | fuel, .ite c t e => do
-    let cv ← evalX p env fuel c
-    if cv.asBool then evalX p env fuel t else evalX p env fuel e
-  | _, .int i => .ok (.int i)
-  | _, .float f => .ok (.float f)
-  | 0, .ident _ => .err .fuel
-  | fuel + 1, .ident s =>
-    match env s with
-    | none => .err .invalidNode
-    | some e => evalX p env fuel e
-termination_by fuel e => (fuel, sizeOf e)
+  | vis, fuel, .ite c t e => do
+    let cv ← evalXV p env vis fuel c
+    if cv.asBool then evalXV p env vis fuel t else evalXV p env vis fuel e
+  | _, _, .int i => .ok (.int i)
+  | _, _, .float f => .ok (.float f)
+  | vis, fuel, .ident s =>
+    if vis.contains s then .err .invalidNode
+    else
+      match env s with
+      | none => .err .invalidNode
+      | some e =>
+        match fuel with
+        | 0 => .err .fuel
+        | fuel + 1 => evalXV p env (s :: vis) fuel e
+termination_by _ fuel e => (fuel, sizeOf e)
+
+/-- `Expr::eval` (the public entry point) for an environment of expressions. -/
+def evalX (p : Profile) (env : EnvX F) (fuel : Nat) (e : Expr F) : R (EvalResult F) :=
+  evalXV p env [] fuel e
 
 end CamVerif.Formula
